@@ -17,6 +17,19 @@ open Discret.DailyLog
 def dayMs : Nat := 86400000
 def dayOf (t : Nat) : Nat := t / dayMs
 
+def insertBy {α : Type} (lt : α → α → Bool) (x : α) : List α → List α
+  | [] => [x]
+  | y :: t => if lt y x then y :: insertBy lt x t else x :: y :: t
+
+/-- stable insertion sort -/
+def sortBy {α : Type} (lt : α → α → Bool) (l : List α) : List α := l.foldr (insertBy lt) []
+
+def lexL : List Nat → List Nat → Bool
+  | [], [] => false
+  | [], _ :: _ => true
+  | _ :: _, [] => false
+  | a :: s, b :: t => a < b || (a = b && lexL s t)
+
 structure Node where
   id : Nat
   room : Nat
@@ -181,8 +194,11 @@ def opDel (rights : List Bool) (snap cur : Replica) (p row ent dsig now : Nat) :
   | some old =>
     if !can rights p (old.author = p) then { cur, marks := [], res := .errAuth }
     else
+      -- the record of the same version at the same date by the same author is byte-identical: same signature
+      let same := cur.ntombs.find? fun x => x.id = row && x.room = old.room && x.ent = old.ent &&
+        x.mdate = old.mdate && x.ddate = now && x.author = p
       let t : NTomb := { id := row, room := old.room, ent := old.ent, mdate := old.mdate, ddate := now,
-                         author := p, sig := dsig }
+                         author := p, sig := match same with | some x => x.sig | none => dsig }
       { cur := { cur with nodes := cur.nodes.filter (·.id ≠ row),
                           edges := cur.edges.filter (fun x => !(x.src = row || x.dest = row)),
                           ntombs := putNTomb t cur.ntombs },
@@ -290,7 +306,9 @@ def ingestNode (d : Defects) (rights : List Bool) (r : Replica) (n : Node) (old 
 def syncDay (d : Defects) (rights : List Bool) (dst src : Replica) (room ent day : Nat) : DayResult :=
   let ets := src.etombs.filter fun t => t.room = room && ent = 0 && dayOf t.ddate = day
   let dst1 := if ets.isEmpty then dst else applyETombs rights dst ets
-  let nts := src.ntombs.filter fun t => t.room = room && t.ent = ent && dayOf t.ddate = day
+  -- answered in primary-key order `(room_id, deletion_date, id, entity)`
+  let nts := sortBy (fun (a b : NTomb) => lexL [a.ddate, a.id, a.ent] [b.ddate, b.id, b.ent])
+    (src.ntombs.filter fun t => t.room = room && t.ent = ent && dayOf t.ddate = day)
   let dst2 := if nts.isEmpty then dst1 else applyNTombs d rights dst1 nts
   let announced := src.nodes.filter fun n => n.room = room && n.ent = ent && dayOf n.mdate = day
   let req := announced.filterMap fun n => (wanted d dst2 n).map fun o => (n, o)
@@ -464,19 +482,6 @@ def World.pull (d : Defects) (w : World) (dst src room : Nat) : World × Nat :=
   (w1.setPeer dst r.dst, r.fetched)
 
 /-! canonical (sorted) view of a replica: what a dump shows -/
-
-def insertBy {α : Type} (lt : α → α → Bool) (x : α) : List α → List α
-  | [] => [x]
-  | y :: t => if lt y x then y :: insertBy lt x t else x :: y :: t
-
-/-- stable insertion sort -/
-def sortBy {α : Type} (lt : α → α → Bool) (l : List α) : List α := l.foldr (insertBy lt) []
-
-def lexL : List Nat → List Nat → Bool
-  | [], [] => false
-  | [], _ :: _ => true
-  | _ :: _, [] => false
-  | a :: s, b :: t => a < b || (a = b && lexL s t)
 
 def Replica.canon (r : Replica) : Replica :=
   { nodes := sortBy (fun a b => lexL [a.id, a.room, a.ent, a.mdate, a.sig] [b.id, b.room, b.ent, b.mdate, b.sig]) r.nodes,
